@@ -19,6 +19,9 @@ pub enum Case {
     /// all encodings of the key pair of d must round-trip and agree with the reference encoders
     Key { d: String, tag: String },
     OpenSslKey { idx: usize },
+    /// a public point given by its coordinates (no private key known), held as a key object with Z = lambda:
+    /// reference encodings must decode to it, and the key object must encode to the reference bytes
+    PubPoint { x: String, y: String, lambda: String, tag: String },
     /// byte strings of every length at the public-key decoder (fill byte; first byte forced to `tag`)
     PubLen { len: usize, tag: u8, fill: u8 },
     PubHexLen { len: usize, kind: String },
@@ -226,6 +229,39 @@ pub fn eval(ctx: &Ctx, case: &Case) {
             same_priv(ctx, "Sm2PrivateKey::from_pkcs8_der", "openssl", guard(|| es(Sm2PrivateKey::from_pkcs8_der(&pkcs8_der))), &d, &cj);
             same_priv(ctx, "Sm2PrivateKey::from_pkcs8_pem", "openssl", guard(|| es(Sm2PrivateKey::from_pkcs8_pem(&pkcs8_pem))), &d, &cj);
             ctx.outcome("openssl-key-done");
+        }
+        Case::PubPoint { x, y, lambda, tag } => {
+            let want: sm2::Pt = Some((hb(x), hb(y)));
+            if !pr.curve.on_curve(&want) {
+                ctx.machinery_error(format!("PubPoint {} is not on the curve", x));
+                return;
+            }
+            ctx.trace();
+            let pk = Sm2PublicKey { point: lib_point(&want, &hb(lambda)) };
+            for comp in [false, true] {
+                let form = if comp { "compressed" } else { "uncompressed" };
+                let rb = sm2::encode_point(&want, comp);
+                same_pub(ctx, "Sm2PublicKey::new", &format!("reference-{}/{}", form, tag), guard(|| es(Sm2PublicKey::new(&rb))), &want, &cj);
+                same_pub(ctx, "Sm2PublicKey::from_hex_string", &format!("reference-{}/{}", form, tag), guard(|| es(Sm2PublicKey::from_hex_string(&hex::encode(&rb)))), &want, &cj);
+                ctx.call();
+                match guard(|| pk.to_bytes(comp)) {
+                    Guard::Done(b) if b == rb => {}
+                    other => ctx.violation("Sm2PublicKey::to_bytes", &format!("wrong-sec1-bytes/{}/{}", form, tag), gdbg(&other.map(hex::encode)), cj()),
+                }
+                ctx.call();
+                match guard(|| pk.to_hex_string(comp)) {
+                    Guard::Done(h) if h.to_lowercase() == hex::encode(&rb) => {}
+                    other => ctx.violation("Sm2PublicKey::to_hex_string", &format!("wrong-hex/{}/{}", form, tag), gdbg(&other), cj()),
+                }
+            }
+            let rspki = der::spki_encode(&sm2::encode_point(&want, false));
+            same_pub(ctx, "Sm2PublicKey::from_public_key_der", &format!("reference-spki/{}", tag), guard(|| es(Sm2PublicKey::from_public_key_der(&rspki))), &want, &cj);
+            ctx.call();
+            match guard(|| es(pk.to_public_key_der())) {
+                Guard::Done(Ok(doc)) if doc.as_bytes() == &rspki[..] => ctx.outcome(&format!("ok/pub-point/{}", tag)),
+                Guard::Done(Ok(doc)) => ctx.violation("Sm2PublicKey::to_public_key_der", &format!("spki-not-interoperable/{}", tag), hex::encode(doc.as_bytes()), cj()),
+                other => ctx.violation("Sm2PublicKey::to_public_key_der", &format!("not-ok/{}", tag), gdbg(&other.map(|r| r.map(|_| ()))), cj()),
+            }
         }
         Case::PubLen { len, tag, fill } => {
             let mut b = vec![*fill; *len];
@@ -501,7 +537,8 @@ fn special_keys(seed: u64) -> Vec<(String, BigUint)> {
 pub fn run(ctx: &Arc<Ctx>) {
     refmodels::selftest::run(&["sm3", "sm2"]).unwrap_or_else(|e| ctx.machinery_error(format!("reference self-test failed: {}", e)));
     let n = sm2::params().n.clone();
-    ctx.set_rule("keys {1,2,n-2,Annex,seeded,searched for leading/trailing zero bytes, high bit, both parities} through every encoder and decoder (SEC1 both forms, hex both cases, SPKI DER/PEM LF+CRLF, bytes, hex, PKCS#8 DER/PEM) with an independent DER reader on the library's documents; 20 OpenSSL key pairs; decoder negatives: every length 0..=130 at Sm2PublicKey::new / from_hex_string / Sm2PrivateKey::new, off-curve and unreduced coordinates and foreign tags via new / hex / SPKI; ASN.1 ciphertext for messages {1,32,100} x ephemeral scalars pre-searched so that C1.x / C1.y have 1..3 leading zero bytes, trailing zero bytes or the top bit set x 4 parameter combinations: document = GM/T 0009 SEQUENCE of (C1.x, C1.y, C3, C2) byte for byte, decrypt_asn1 of it, of the reference's and of OpenSSL's documents returns M; malformed documents are refused without a panic.");
+    let pr = sm2::params();
+    ctx.set_rule("keys {1,2,n-2,Annex,seeded,searched for leading/trailing zero bytes, high bit, both parities} through every encoder and decoder (SEC1 both forms, hex both cases, SPKI DER/PEM LF+CRLF, bytes, hex, PKCS#8 DER/PEM) with an independent DER reader on the library's documents; public points with the smallest x and with x within 2^64 of p (both roots), and points held as Jacobian key objects (Z in {2, p-1, seeded}), through every public-key encoder and decoder; 20 OpenSSL key pairs; decoder negatives: every length 0..=130 at Sm2PublicKey::new / from_hex_string / Sm2PrivateKey::new, off-curve and unreduced coordinates and foreign tags via new / hex / SPKI; ASN.1 ciphertext for messages {1,32,100} x ephemeral scalars pre-searched so that C1.x / C1.y have 1..3 leading zero bytes, trailing zero bytes or the top bit set x 4 parameter combinations: document = GM/T 0009 SEQUENCE of (C1.x, C1.y, C3, C2) byte for byte, decrypt_asn1 of it, of the reference's and of OpenSSL's documents returns M; malformed documents are refused without a panic.");
     let mut cases: Vec<Case> = Vec::new();
     let mut g = SplitMix::new(ctx.seed, "c19");
     let mut keys: Vec<(String, BigUint)> = vec![("1".into(), BigUint::one()), ("2".into(), BigUint::from(2u32)), ("n-2".into(), &n - 2u32), ("annex".into(), hb(ANNEX_D))];
@@ -513,6 +550,41 @@ pub fn run(ctx: &Arc<Ctx>) {
     keys.extend(sp);
     for (tag, d) in &keys {
         cases.push(Case::Key { d: hexbig(d), tag: tag.clone() });
+    }
+    // public points with a coordinate next to a boundary: the curve points with the smallest x and with the x closest
+    // to p (both roots); and ordinary points held as Jacobian key objects
+    {
+        let one = hexbig(&BigUint::one());
+        let mut n_small = 0;
+        let mut n_big = 0;
+        let mut j = BigUint::zero();
+        while (n_small < 3 || n_big < 3) && j < BigUint::from(200u32) {
+            for (x, is_small) in [(j.clone(), true), (&pr.p - 1u32 - &j, false)] {
+                if (is_small && n_small >= 3) || (!is_small && n_big >= 3) {
+                    continue;
+                }
+                let mut enc = vec![0x02u8];
+                enc.extend_from_slice(&cand(&x));
+                if let Some(Some((px, py))) = sm2::decode_point(&enc) {
+                    for y in [py.clone(), &pr.p - &py] {
+                        cases.push(Case::PubPoint { x: hexbig(&px), y: hexbig(&y), lambda: one.clone(), tag: (if is_small { "x-small" } else { "x-within-2^64-of-p" }).into() });
+                    }
+                    if is_small {
+                        n_small += 1
+                    } else {
+                        n_big += 1
+                    }
+                }
+            }
+            j += 1u32;
+        }
+        ctx.cov("boundary_public_points", json!({"smallest_x": n_small, "x_closest_to_p": n_big}));
+        for d in [&keys[3].1, &keys[4].1] {
+            let (x, y) = sm2::g_mul(d).unwrap();
+            for lam in [BigUint::from(2u32), &pr.p - 1u32, g.nonzero_below(&pr.p)] {
+                cases.push(Case::PubPoint { x: hexbig(&x), y: hexbig(&y), lambda: hexbig(&lam), tag: "jacobian-key-object".into() });
+            }
+        }
     }
     for idx in 0..keys_corpus().len() {
         cases.push(Case::OpenSslKey { idx });
